@@ -11,6 +11,9 @@ R4 bound order / axis discipline: bounds are produced and consumed as
    the filter passes its bounds to the compiled test unmodified
 R5 refinement grids include both end points (>= 2 samples whenever the range is not a point)
 R6 refinement axes: pixel column 0 is fed from axis-1 (x) samples only, column 1 from axis-2 (y)
+R9 perimeter refinement: for every sample e of the perimeter walk (4*nm+1 of them, enumerated), the window refined
+   around it lies on the edge the walk took e from, contains e's own coarse position and reaches one coarse sample to
+   either side of it; a corner sample must be refined along both of its edges
 """
 import ast
 
@@ -44,13 +47,14 @@ def run(run):
     run.assumptions += ["np.asarray of a tuple of tuples allocates; of an ndarray returns the same object",
                         "np.linspace(a, b, n) includes both a and b iff n >= 2"]
     run.undecided_clauses += ["every tile with a pixel centre inside the box/footprint/chunk is accepted (spherical geometry over floats)"]
-    for r, n in (("C07.R1", 2), ("C07.R2", 2), ("C07.R3", 2), ("C07.R4", 5), ("C07.R5", 1), ("C07.R6", 2), ("C07.R7", 1), ("C07.R8", 4)):
+    for r, n in (("C07.R1", 2), ("C07.R2", 2), ("C07.R3", 2), ("C07.R4", 5), ("C07.R5", 1), ("C07.R6", 2), ("C07.R7", 1), ("C07.R8", 4), ("C07.R9", 1)):
         run.floor(r, n)
     _r1_purity(run)
     _r2_pruning(run)
     _r3_chunk(run)
     _r4_bounds(run)
     _r5_r6_refinement(run)
+    _r9_perimeter(run)
     _r7_union_filter(run)
     # "sampling all chunks one after another fills every pixel": each chunk's tile is merged into what earlier chunks stored,
     # i.e. in updating mode nothing reachable from the sampling workers writes a tile with a plain write_image (C10's rule)
@@ -828,3 +832,369 @@ def _subterms_c07(t):
             if isinstance(x, tuple):
                 for y in _subterms_c07(x):
                     yield y
+
+
+# ---------------------------------------------------------------------------------------------------------------------
+# R9: the longitude refinement looks where the extreme perimeter sample is
+
+
+def _concrete_index(t, n):
+    """The list of positions a constant index term (integer or slice) selects in a dimension of length n."""
+    if t[0] == "slice":
+        parts = []
+        for x in t[1:4]:
+            if x == ("const", None):
+                parts.append(None)
+            else:
+                v = num_value(x)
+                if v is None or v.denominator != 1:
+                    return None
+                parts.append(int(v))
+        return list(range(*slice(*parts).indices(n)))
+    v = num_value(t)
+    if v is None or v.denominator != 1:
+        return None
+    v = int(v)
+    return [v + n if v < 0 else v] if -n <= v < n else None
+
+
+def _perimeter_map(rb, n_coarse):
+    """Which coarse grid node (i_dim0, i_dim1) each slot of the 1-D perimeter array is copied from: read off the
+    slice-to-slice copies `edge[a:b] = plane[s0, s1]` of the outer function. Returns (array term, [(i0, i1), ..]) or
+    (None, reason)."""
+    by_array = {}
+    for e in rb.events:
+        if e.kind != "store" or [c for c in e.pc]:
+            continue
+        lv, val = e.term[1]
+        if lv[0] != "sub" or lv[1][0] != "new" or lv[2][0] != "slice":
+            continue
+        if val[0] != "sub" or val[2][0] != "tuple" or len(val[2][1]) != 2:
+            continue
+        by_array.setdefault(lv[1], []).append((e, lv[2], val[2][1]))
+    for arr, copies in by_array.items():
+        if len(copies) < 2:
+            continue
+        size = None
+        ctor = arr[2]
+        if ctor[0] == "call" and ctor[2]:
+            v = num_value(ctor[2][0])
+            size = int(v) if v is not None and v.denominator == 1 else None
+        if size is None:
+            return None, "the perimeter array's length is not a constant"
+        slots = [None] * size
+        for e, dst, (s0, s1) in copies:
+            d = _concrete_index(dst, size)
+            i0 = _concrete_index(s0, n_coarse)
+            i1 = _concrete_index(s1, n_coarse)
+            if d is None or i0 is None or i1 is None:
+                return None, "a copy into the perimeter array at line %d has non-constant bounds" % e.node.lineno
+            if len(i0) == 1 and s0[0] != "slice":
+                i0 = i0 * len(d)
+            if len(i1) == 1 and s1[0] != "slice":
+                i1 = i1 * len(d)
+            if not (len(i0) == len(i1) == len(d)):
+                return None, "the copy at line %d moves %d/%d grid nodes into %d slots (numpy would raise or broadcast)" % (e.node.lineno, len(i0), len(i1), len(d))
+            for k, a, b in zip(d, i0, i1):
+                slots[k] = (a, b)
+        if any(x is None for x in slots):
+            return None, "not every slot of the perimeter array is filled by a constant-bounds copy"
+        return arr, slots
+    return None, "no 1-D array filled edge by edge from the coarse longitude plane was found"
+
+
+def _dim_of_axis(rb):
+    """{'1': dim, '2': dim}: along which dimension of the coarse grid each image axis varies, from the reshape of the
+    stores into the coarse pixel grid (`[..., 0] = idx1.reshape((-1, 1))` -> axis 1 varies along dim 0)."""
+    out = {}
+    for e in rb.events:
+        if e.kind != "store" or e.pc:
+            continue
+        lv, val = e.term[1]
+        if lv[0] != "sub" or lv[2][0] != "tuple" or len(lv[2][1]) != 2 or lv[2][1][0] != ("const", Ellipsis):
+            continue
+        col = num_value(lv[2][1][1])
+        if col not in (0, 1):
+            continue
+        if val[0] == "call" and val[1][0] == "attr" and val[1][2] == "reshape" and val[2] and val[2][0][0] == "tuple":
+            shp = [num_value(x) for x in val[2][0][1]]
+            if shp == [-1, 1]:
+                out["1" if col == 0 else "2"] = 0
+            elif shp == [1, -1]:
+                out["1" if col == 0 else "2"] = 1
+    return out
+
+
+def _r9_perimeter(run):
+    from sa import teval as _teval
+    project = run.project
+    ib = project.fn(S + ".WcsSampler._image_bounds")
+    ev_outer = sym.make_evaluator(project, S, [])
+    ev_outer.inline_closures = False
+    rb = ev_outer.run(ib.node)
+    CONSTRUCT = "WcsSampler._image_bounds"
+
+    def und(msg, kind, node=None):
+        run.undecided("C07.R9", ib, node, msg, kind=kind, construct=CONSTRUCT)
+
+    if "refine_lon" not in rb.nested:
+        # the longitude refinement is whatever closure subscripts the perimeter array's companion (deltas) - fall back on any
+        cands = [k for k in rb.nested if k != "refine_lat"]
+        if len(cands) != 1:
+            return und("the longitude refinement closure was not found", "no-closure")
+        name = cands[0]
+    else:
+        name = "refine_lon"
+    fn, env = rb.nested[name]
+    c1, c2 = _coarse_axes(rb, env)
+    if c1 is None or c2 is None:
+        return und("the coarse index arrays were not found", "no-coarse-axes")
+    ctor = c1[2] if c1[0] == "new" else c1
+    n_coarse = num_value(ctor[2][2]) if len(ctor[2]) >= 3 else None
+    if n_coarse is None or n_coarse.denominator != 1:
+        return und("the coarse grid size is not a constant", "coarse-size")
+    n_coarse = int(n_coarse)
+    dims = _dim_of_axis(rb)
+    if sorted(dims) != ["1", "2"] or sorted(dims.values()) != [0, 1]:
+        return und("cannot tell along which grid dimension each image axis varies", "grid-dims")
+    arr, slots = _perimeter_map(rb, n_coarse)
+    if arr is None:
+        return und(slots, "perimeter-map")
+    # position of every perimeter sample as (index on axis 1, index on axis 2)
+    P = [(s[dims["1"]], s[dims["2"]]) for s in slots]
+    nmax = n_coarse - 1
+    if not all((a in (0, nmax)) or (b in (0, nmax)) for a, b in P):
+        bad = [k for k, (a, b) in enumerate(P) if not ((a in (0, nmax)) or (b in (0, nmax)))]
+        run.violated("C07.R9", ib, None, "perimeter samples %s are copied from interior nodes of the coarse grid, not from an image edge" % _ranges(bad),
+                     kind="perimeter-interior", construct=CONSTRUCT)
+        return
+
+    ev = sym.make_evaluator(project, S, [])
+    ev._closures = dict(ev_outer._closures)
+    r = ev.run(fn, env=env)
+    params = [a.arg for a in fn.args.args]
+    # the extreme sample: the closure's parameter applied to the perimeter array
+    e_atoms = set()
+
+    def find_e(t):
+        if not isinstance(t, tuple) or not t:
+            return
+        if t[0] == "call" and t[1][0] == "sym" and t[1][1] in params:
+            e_atoms.add(t)
+            return
+        for x in t[1:] if isinstance(t[0], str) else t:
+            if isinstance(x, tuple):
+                find_e(x)
+    # stores into the columns of the refined pixel list: `<fresh array>[..., c] = value`
+    by_base = {}
+    for e in r.events:
+        if e.kind != "store" or e.term[1][0][0] != "sub":
+            continue
+        lv, val = e.term[1]
+        idx = lv[2]
+        if idx[0] != "tuple" or len(idx[1]) != 2 or idx[1][0] != ("const", Ellipsis) or lv[1][0] != "new":
+            continue
+        by_base.setdefault(lv[1][1], []).append((e, idx[1][1], val))
+        find_e(val)
+        find_e(idx[1][1])
+        for c in e.pc:
+            find_e(c)
+    col_stores = [v for v in by_base.values() if len(v) >= 2]
+    if len(col_stores) != 1 or len(e_atoms) != 1:
+        return und("the refined pixel list of %s is not built by column stores `pix[..., c] = ...` from one extreme-sample index "
+                   "(%d candidate arrays, %d index atoms)" % (name, len(col_stores), len(e_atoms)), "refined-shape", fn)
+    col_stores = col_stores[0]
+    first_node = col_stores[0][0].node
+    e_atom = next(iter(e_atoms))
+    f = project.fn(S + ".WcsSampler._image_bounds." + name)
+    run.note_func(f)
+
+    def size_hook(envv):
+        # the length of a coarse index array is the coarse grid size
+        def hook(t, rec):
+            if t[0] == "attr" and t[2] == "size" and which_axis(t[1], envv) is not None:
+                return n_coarse
+            if t[0] == "call" and t[1] == ("sym", "len") and len(t[2]) == 1 and which_axis(t[2][0], envv) is not None:
+                return n_coarse
+            if t[0] == "item" and t[2] == 0 and t[1][0] == "attr" and t[1][2] == "shape" and which_axis(t[1][1], envv) is not None:
+                return n_coarse
+            return NotImplemented
+        return [hook]
+
+    def as_int(t, envv):
+        v = _teval.teval(t, envv, size_hook(envv))
+        if v is _teval.UNKNOWN or v is _teval.RAISES or isinstance(v, bool) or not isinstance(v, int):
+            return None
+        return v
+
+    def which_axis(t, envv, depth=0):
+        """'1' / '2' if t denotes one of the two coarse index arrays (directly, or picked from a tuple of them)."""
+        if t == c1:
+            return "1"
+        if t == c2:
+            return "2"
+        if depth > 6 or not isinstance(t, tuple) or not t:
+            return None
+        if t[0] in ("sub", "item") and isinstance(t[1], tuple) and t[1] and t[1][0] in ("tuple", "list"):
+            j = t[2] if not isinstance(t[2], tuple) else as_int(t[2], envv)
+            if isinstance(j, int) and not isinstance(j, bool) and -len(t[1][1]) <= j < len(t[1][1]):
+                return which_axis(t[1][1][j], envv, depth + 1)
+            return None
+        if t[0] == "ite":
+            c = _teval.teval(t[1], envv)
+            if c is _teval.UNKNOWN or c is _teval.RAISES:
+                return None
+            return which_axis(t[2] if c else t[3], envv, depth + 1)
+        return None
+
+    def elem(t, envv):
+        """(axis, index) if t is one element of a coarse index array."""
+        if t[0] in ("sub", "item"):
+            ax = which_axis(t[1], envv)
+            if ax is None:
+                return None
+            kv = t[2] if not isinstance(t[2], tuple) else as_int(t[2], envv)
+            if isinstance(kv, bool) or not isinstance(kv, int):
+                return None
+            if kv < 0:
+                kv += n_coarse
+            return (ax, kv) if 0 <= kv < n_coarse else None
+        if t[0] == "ite":
+            c = _teval.teval(t[1], envv)
+            if c is _teval.UNKNOWN or c is _teval.RAISES:
+                return None
+            return elem(t[2] if c else t[3], envv)
+        return None
+
+    def value(t, envv):
+        if t[0] == "new":
+            return value(t[2], envv)
+        if t[0] == "ite":
+            c = _teval.teval(t[1], envv)
+            if c is _teval.UNKNOWN or c is _teval.RAISES:
+                return None
+            return value(t[2] if c else t[3], envv)
+        if t[0] == "call" and show(t[1]) == "np.linspace" and len(t[2]) >= 2:
+            a, b = elem(t[2][0], envv), elem(t[2][1], envv)
+            if a and b and a[0] == b[0]:
+                return ("lin", a[0], min(a[1], b[1]), max(a[1], b[1]))
+            return None
+        if t[0] == "call" and show(t[1]) == "np.full" and len(t[2]) >= 2:
+            a = elem(t[2][1], envv)
+            return ("fix", a[0], a[1]) if a else None
+        if t[0] == "call" and show(t[1]) == "np.repeat" and len(t[2]) >= 2:
+            a = elem(t[2][0], envv)
+            return ("fix", a[0], a[1]) if a else None
+        a = elem(t, envv)
+        if a:
+            return ("fix", a[0], a[1])
+        if t[0] == "poly":
+            # np.zeros(n) + A[k]
+            fixed = None
+            for m, c in t[1]:
+                if c != 1 or len(m) != 1 or m[0][1] != 1:
+                    return None
+                at = m[0][0]
+                inner = at[2] if at[0] == "new" else at
+                if inner[0] == "call" and show(inner[1]) in ("np.zeros", "np.zeros_like"):
+                    continue
+                a = elem(at, envv)
+                if a is None or fixed is not None:
+                    return None
+                fixed = a
+            return ("fix", fixed[0], fixed[1]) if fixed else None
+        return None
+
+    def columns(envv):
+        """{column: value} of the refined pixel list for one sample, or None."""
+        out = {}
+        for e, ci, val in col_stores:
+            live = True
+            for c in e.pc:
+                if c[0] == "loop":
+                    return None
+                cv = _teval.teval(c, envv)
+                if cv is _teval.UNKNOWN or cv is _teval.RAISES:
+                    return None
+                if not cv:
+                    live = False
+                    break
+            if not live:
+                continue
+            col = num_value(ci)
+            col = int(col) if col is not None and col.denominator == 1 else as_int(ci, envv)
+            if col not in (0, 1):
+                return None
+            out[col] = value(val, envv)
+        return out if sorted(out) == [0, 1] and None not in out.values() else None
+
+    problems = {}
+    unknown = []
+    size = len(P)
+    for k in range(size):
+        envv = {e_atom: k}
+        cv = columns(envv)
+        if cv is None:
+            unknown.append(k)
+            continue
+        v0, v1 = cv[0], cv[1]
+        lin = [v for v in (v0, v1) if v[0] == "lin"]
+        fix = [v for v in (v0, v1) if v[0] == "fix"]
+        if len(lin) != 1 or len(fix) != 1 or lin[0][1] == fix[0][1]:
+            unknown.append(k)
+            continue
+        _, ax, lo, hi = lin[0]
+        _, bx, q = fix[0]
+        pos = {"1": P[k][0], "2": P[k][1]}
+        p = pos[ax]
+        if q != pos[bx] or not (lo <= p <= hi):
+            problems.setdefault("window-misses-sample", []).append(k)
+            continue
+        if lo > max(p - 1, 0) or hi < min(p + 1, nmax):
+            problems.setdefault("window-off-centre", []).append(k)
+            continue
+        # perimeter neighbours that lie on another edge (k is a corner): the first coarse cell of that edge is not searched
+        nb = []
+        for j in (k - 1, k + 1):
+            if j < 0:
+                j = size - 2 if P[0] == P[-1] else None
+            elif j >= size:
+                j = 1 if P[0] == P[-1] else None
+            if j is not None:
+                nb.append(P[j])
+        if any({"1": a, "2": b}[bx] != q for a, b in nb):
+            problems.setdefault("corner-one-edge", []).append(k)
+    if unknown:
+        return und("the refinement window of perimeter samples %s could not be evaluated (an array expression outside "
+                   "linspace / constant column over the coarse index arrays)" % _ranges(unknown), "window-form", first_node)
+    texts = {
+        "window-misses-sample": "the pixels refined for perimeter sample(s) %s do not contain that sample's own position on the image edge "
+                                "(the refinement looks at another edge or another stretch of the edge than the one the coarse extreme lies on): "
+                                "the true extreme longitude is not found and the bounds fall short",
+        "window-off-centre": "the refinement window of perimeter sample(s) %s does not reach one coarse sample to either side of the "
+                             "sample (it is centred on a neighbouring sample): the coarse cell on the far side of the extreme is never "
+                             "searched and the longitude bounds can fall short of the image",
+        "corner-one-edge": "corner sample(s) %s of the perimeter walk are refined along one of their two edges only: an extreme in the "
+                           "first coarse cell of the other edge is missed and the longitude bounds can fall short of the image",
+    }
+    for kind in ("window-misses-sample", "window-off-centre", "corner-one-edge"):
+        if kind in problems:
+            run.violated("C07.R9", f, first_node, texts[kind] % _ranges(problems[kind]), kind=kind, construct=CONSTRUCT,
+                         samples=_ranges(problems[kind]), perimeter_length=size)
+    good = size - sum(len(v) for v in problems.values())
+    if good:
+        run.holds("C07.R9", f, first_node, "%d of %d perimeter samples: the refined stretch lies on the sample's edge, contains it and "
+                  "reaches one coarse sample to either side" % (good, size), construct=CONSTRUCT + " (samples in order)")
+
+
+def _ranges(xs):
+    xs = sorted(xs)
+    out = []
+    i = 0
+    while i < len(xs):
+        j = i
+        while j + 1 < len(xs) and xs[j + 1] == xs[j] + 1:
+            j += 1
+        out.append(str(xs[i]) if i == j else "%d-%d" % (xs[i], xs[j]))
+        i = j + 1
+    return ", ".join(out)
